@@ -199,6 +199,7 @@ public:
 
 		if(head) {
 			node->next = head;
+			EVENTPP_VERIF_ACCESS(head.get(), true, "cl.node.previous");
 			head->previous = node;
 			EVENTPP_VERIF_POINT("cl.prepend.mid");
 			head = node;
@@ -266,8 +267,10 @@ public:
 
 		auto node = handle.lock();
 		if(node && node->counter != removedCounter) {
+			EVENTPP_VERIF_ACCESS(node.get(), false, "cl.node.previous");
 			while(node->previous) {
 				node = node->previous;
+				EVENTPP_VERIF_ACCESS(node.get(), false, "cl.node.previous");
 			}
 			return node == head;
 		}
@@ -409,6 +412,7 @@ private:
 		if(beforeNode->previous) {
 			beforeNode->previous->next = node;
 		}
+		EVENTPP_VERIF_ACCESS(beforeNode.get(), true, "cl.node.previous");
 		beforeNode->previous = node;
 
 		if(beforeNode == head) {
@@ -419,12 +423,15 @@ private:
 	NodePtr doAllocateNode(const Callback & callback)
 	{
 		// The node gets its generation when it is linked, see doGetNextCounter.
-		return std::make_shared<Node>(callback, removedCounter);
+		NodePtr node(std::make_shared<Node>(callback, removedCounter));
+		EVENTPP_VERIF_FORGET(node.get());
+		return node;
 	}
 	
 	void doFreeNode(NodePtr & node)
 	{
 		if(node->next) {
+			EVENTPP_VERIF_ACCESS(node->next.get(), true, "cl.node.previous");
 			node->next->previous = node->previous;
 		}
 		if(node->previous) {
